@@ -133,15 +133,25 @@ RunClauses(v, p, pre, post, out, dev) ==
                     \/ t \notin DOMAIN post
                     \/ ~SameBag(pre[t], post[t])}
       own == IF p \in GPreds(v) THEN {TableOf(v, p)} \cap touched ELSE {}
+      \* a table of ANOTHER grounded predicate of this version that now holds
+      \* exactly what that predicate denotes: the property does not forbid
+      \* writing it (reported, not a failure)
+      extra == {t \in (touched \ own) \cap DOMAIN post :
+                  \E g \in GPreds(v) \ (W \cup {p}) :
+                     TableOf(v, g) = t /\ BagOk(DenDev(v.prog, dev)[g], post[t])}
+      clobbered == (touched \ own) \ extra
       rowsOk == IF CanJudge(p) THEN BagOk(EvalAgainst(v, p, post, dev), out)
                 ELSE BagOk(DenDev(v.prog, dev)[p], out)
   IN (IF missing # {} THEN <<[clause |-> "table_missing", on |-> missing]>> ELSE <<>>)
      \o (IF unfaithful # {} THEN <<[clause |-> "table_unfaithful", on |-> unfaithful]>> ELSE <<>>)
      \o (IF own # {} THEN <<[clause |-> "print_wrote", on |-> own]>> ELSE <<>>)
-     \o (IF touched \ own # {}
-         THEN <<[clause |-> "other_table_touched", on |-> touched \ own]>> ELSE <<>>)
+     \o (IF clobbered # {}
+         THEN <<[clause |-> "other_table_touched", on |-> clobbered]>> ELSE <<>>)
+     \o (IF extra # {} THEN <<[clause |-> "extra_table_written", on |-> extra]>> ELSE <<>>)
      \o (IF ~rowsOk THEN <<[clause |-> "rows", on |-> {p}]>> ELSE <<>>)
 
-LegalRun(v, p, pre, post, out, dev) == RunClauses(v, p, pre, post, out, dev) = <<>>
+Informational == {"extra_table_written"}
+Failing(cs) == SelectSeq(cs, LAMBDA c : c.clause \notin Informational)
+LegalRun(v, p, pre, post, out, dev) == Failing(RunClauses(v, p, pre, post, out, dev)) = <<>>
 
 =============================================================================
